@@ -326,6 +326,8 @@ def refusal_scenarios(rng, n):
             s["tree"]["p.diff"] = ("R", 0o644, b"Prereq: no-such-version-string\n" + s["tree"]["p.diff"][2]); s["opts"]["t"] = 1
             if rng.random() < 0.5:
                 s["opts"]["b"] = 1
+            if rng.random() < 0.4:
+                s["opts"]["f"] = 1          # --batch together with --force: --batch still decides
         s["refusal"] = kind
         scns.append(s)
     return scns
@@ -743,6 +745,35 @@ def run(prop, tier, seed):
                 chosen = names[present[0]]
                 sec2 = dict(sec, path=chosen, newpath=chosen)
                 scns.append(add_bystanders(rng, dict(tree=tree, opts=dict(rng.choice([{}, {"b": 1}]), p=1, i="p.diff"), umask=0o022, secs=[sec2])))
+            for _ in range(n // 6):
+                # git renames / copies (with and without hunks) of files whose names git writes in quotes, in sub-directories, under
+                # -p1, with bystanders at the names that a wrong strip count would give; and copies under -o
+                base = rng.choice(["f\xc3\xa4.txt", "a b.c", "t\xe9st"])
+                src = "dir/sub/" + base
+                kind = rng.choice(["rename", "copy", "rename"])
+                dst = rng.choice(["dir/sub/g" + base, "dir/other/" + base])
+                secx = scen.section(rng, "t", kind="change", fmt="git", nonl=False)
+                hunkless = rng.random() < 0.5
+                hs = [] if hunkless else secx["hs"]
+                a = secx["a"]; b = a if hunkless else secx["b"]
+                text = emit.emit_git(emit.cquote(src).decode("latin-1") if False else src, dst, hs, kind=kind)
+                # git quotes such names itself: rewrite the header and the rename/copy lines in git's quoted form
+                def gq(nm, pre=""):
+                    return emit.cquote(pre + nm).decode("latin-1") if any(ord(ch) > 126 for ch in nm) else pre + nm
+                text = text.replace(("diff --git a/%s b/%s" % (src, dst)).encode("latin-1"), ("diff --git %s %s" % (gq(src, "a/"), gq(dst, "b/"))).encode("latin-1"))
+                for w_ in ("rename", "copy"):
+                    text = text.replace(("%s from %s" % (w_, src)).encode("latin-1"), ("%s from %s" % (w_, gq(src))).encode("latin-1"))
+                    text = text.replace(("%s to %s" % (w_, dst)).encode("latin-1"), ("%s to %s" % (w_, gq(dst))).encode("latin-1"))
+                text = text.replace(("--- a/%s" % src).encode("latin-1"), ("--- %s" % gq(src, "a/")).encode("latin-1")).replace(("+++ b/%s" % dst).encode("latin-1"), ("+++ %s" % gq(dst, "b/")).encode("latin-1"))
+                o = {"p": 1, "i": "p.diff"}
+                if kind == "copy" and rng.random() < 0.5:
+                    o["o"] = "outfile"
+                tree = {"p.diff": ("R", 0o644, text)}
+                scen.add_parents(tree, src); tree[src] = ("R", 0o644, emit.file_bytes(a))
+                for by in ("sub/" + base, base, "sub/g" + base, "other/" + base):
+                    scen.add_parents(tree, by); tree[by] = ("R", 0o644, b"bystander at a wrongly stripped name\n")
+                sec2 = dict(path=src, newpath=dst, a=a, b=b, text=text, fmt="git", kind=kind, hs=hs, ops=[], mode_old=None, mode_new=None, w=0)
+                scns.append(dict(tree=tree, opts=o, umask=0o022, secs=[sec2]))
             _, b2, m2 = l2_family(run_, exe, scns, judge_c16, cls=lambda s, r: "exit %d" % r["exit"])
             bad += b2; mism += m2
             # no temporary may stay behind even when setting one up fails half way (fdopen's fcntl) or the run is killed there
@@ -855,6 +886,11 @@ def run(prop, tier, seed):
                 s0 = scen.base_scenario(rng, [sec], opts=o)
                 k_, m_, d_ = s0["tree"][sec["path"]]
                 s0["tree"][sec["path"]] = (k_, m_, emit.file_bytes(sec["b"]))
+                scns.append(add_bystanders(rng, s0))
+            import wide
+            for _ in range(n // 8):
+                sec = wide.symlink_section(rng.choice(["ln", "lnd/ln"]), rng.choice(["tgt", "x"]))
+                s0 = scen.base_scenario(rng, [sec], opts=dict(rng.choice([{"b": 1}, {"b": 1, "z": ".bak"}, {"b": 1, "B": "pre."}, {}])))
                 scns.append(add_bystanders(rng, s0))
             # a series of git patches for one file (writes deferred to the end of the run): the one backup the run takes holds
             # the bytes from before the run, and it is due as soon as ANY of the patches applies imperfectly
